@@ -39,6 +39,8 @@ func runC16(c *engine.Ctx) {
 		{"divlen", func() { c16DivByLen(c, "R19") }},
 		{"decodeinto", func() { c16DecodeInto(c, "R20") }},
 		{"assert", func() { c16ImpossibleAssert(c, "R21") }},
+		{"bufio", func() { checkThrowawayBufio(c, "R22") }},
+		{"waitlock", func() { checkNoWaitUnderLock(c, li, "R23") }},
 	}
 	for _, s := range steps {
 		t0 := time.Now()
@@ -319,6 +321,27 @@ func c16AllocSizesRule(c *engine.Ctx, rule string) {
 						walk(bo.X, d+1)
 						walk(bo.Y, d+1)
 						return
+					}
+					if call, ok := v.(*ssa.Call); ok && d < 6 {
+						if b, ok := call.Call.Value.(*ssa.Builtin); ok {
+							switch b.Name() {
+							case "max": // max(x, k) with a constant k >= 0 is non-negative whatever x is
+								for _, a := range call.Call.Args {
+									if z, ok := engine.ConstInt(st.Resolve(a)); ok && z >= 0 {
+										return
+									}
+								}
+								for _, a := range call.Call.Args {
+									walk(a, d+1)
+								}
+								return
+							case "min": // min is non-negative when all of its operands are
+								for _, a := range call.Call.Args {
+									walk(a, d+1)
+								}
+								return
+							}
+						}
 					}
 					if _, isC := v.(*ssa.Const); !isC {
 						leaves = append(leaves, v)
@@ -1087,20 +1110,18 @@ func c16RetryBound(c *engine.Ctx, rule string) {
 		}
 		n++
 		ok, why := false, "loop condition not recognised"
-		if t, isIf := h.Instrs[len(h.Instrs)-1].(*ssa.If); isIf {
-			if bo, isBin := t.Cond.(*ssa.BinOp); isBin && bo.Op == token.LSS {
-				src := engine.Provenance(bo.Y, engine.ProvOpts{})
-				ok, why = src.HasField(bpc), "bound does not derive from BaseProxy.poolCount"
-				for fv := range src.Fields {
-					if fv.Pkg() != nil && strings.HasSuffix(fv.Pkg().Path(), "/pkg/msg") {
-						ok, why = false, "bound derives from the message field "+fv.Name()+" (peer-chosen, may be negative)"
-					}
+		if by, isCounting := engine.LoopBound(h); isCounting { // `i < B` or `range B`
+			src := engine.Provenance(by, engine.ProvOpts{})
+			ok, why = src.HasField(bpc), "bound does not derive from BaseProxy.poolCount"
+			for fv := range src.Fields {
+				if fv.Pkg() != nil && strings.HasSuffix(fv.Pkg().Path(), "/pkg/msg") {
+					ok, why = false, "bound derives from the message field "+fv.Name()+" (peer-chosen, may be negative)"
 				}
-				if add, isAdd := bo.Y.(*ssa.BinOp); !(isAdd && add.Op == token.ADD) {
-					ok, why = false, "bound is not poolCount+1"
-				} else if k, isK := engine.ConstInt(add.Y); !(isK && k >= 1) {
-					ok, why = false, "bound is not poolCount+1"
-				}
+			}
+			if add, isAdd := by.(*ssa.BinOp); !(isAdd && add.Op == token.ADD) {
+				ok, why = false, "bound is not poolCount+1"
+			} else if k, isK := engine.ConstInt(add.Y); !(isK && k >= 1) {
+				ok, why = false, "bound is not poolCount+1"
 			}
 		}
 		c.Check(ok, p.FuncName(f)+">retry-bound", w.Pos(), 2, nil, "the loop runs at least once: bound is the clamped poolCount + 1 (%s)", why)
@@ -1226,7 +1247,22 @@ func c16IndexBounds(c *engine.Ctx, rule string) {
 			}}, "Index* result checked before it is used as a slice bound")
 		})
 	}
-	c.Floor(n, 2)
+	// the sites disappear when the code moves to strings.Cut (which cannot produce a bad bound): the floor is on the
+	// string-splitting calls the matcher looked at, not on the risky ones
+	seen := 0
+	for _, f := range p.RepoFuncs() {
+		engine.ForEachInstr(f, func(in ssa.Instruction) {
+			if call, ok := in.(*ssa.Call); ok {
+				if o := engine.CalleeObj(call); o != nil && o.Pkg() != nil && (o.Pkg().Path() == "strings" || o.Pkg().Path() == "bytes") {
+					if strings.HasPrefix(o.Name(), "Index") || strings.HasPrefix(o.Name(), "LastIndex") || strings.HasPrefix(o.Name(), "Cut") || strings.HasPrefix(o.Name(), "Split") {
+						seen++
+					}
+				}
+			}
+		})
+	}
+	c.Check(seen >= 3, "index-bounds:calls-seen", token.NoPos, seen, nil, "positive control: %d Index*/Cut/Split calls examined, %d of them feed a slice bound", seen, n)
+	c.Floor(seen, 3)
 }
 
 // mayReturnNil: some return of cf yields a nil constant, a named result, or an unknown value at result index i; false
@@ -1612,5 +1648,113 @@ func c16ImpossibleAssert(c *engine.Ctx, rule string, pkgs ...string) {
 		})
 	}
 	c.Check(n >= 1, "impossible-assert:seen", token.NoPos, n, nil, "positive control: %d interface assertions examined", n)
+	c.Floor(n, 1)
+}
+
+// checkThrowawayBufio: a bufio.Reader reads ahead. One that is created over a connection only to read a single message or
+// request, and then dropped while the connection itself goes on being used (joined, handed on, read), has swallowed
+// whatever bytes followed that message in the same segment — the head of the user's stream, or a cipher's IV.
+func checkThrowawayBufio(c *engine.Ctx, rule string) {
+	c.Rule(rule, "no bufio.Reader is created over a connection (a value that can also be written to) merely to pass it to read calls while the connection itself is used again afterwards: bytes buffered beyond the message are lost")
+	p := c.P
+	n := 0
+	hasWrite := func(t types.Type) bool {
+		ms := types.NewMethodSet(t)
+		for i := 0; i < ms.Len(); i++ {
+			if ms.At(i).Obj().Name() == "Write" {
+				return true
+			}
+		}
+		return false
+	}
+	for _, f := range p.RepoFuncs() {
+		f := f
+		engine.ForEachInstr(f, func(in ssa.Instruction) {
+			call, ok := in.(*ssa.Call)
+			if !ok {
+				return
+			}
+			o := engine.CalleeObj(call)
+			if o == nil || o.Pkg() == nil || o.Pkg().Path() != "bufio" || !strings.HasPrefix(o.Name(), "NewReader") {
+				return
+			}
+			n++
+			under := engine.Unwrap(call.Call.Args[0])
+			if mi, ok := under.(*ssa.MakeInterface); ok {
+				under = engine.Unwrap(mi.X)
+			}
+			key := fmt.Sprintf("%s>bufio#%d", p.FuncName(f), n)
+			if !hasWrite(under.Type()) {
+				c.Hold(key, in.Pos(), 1, nil, "buffered reader over a read-only source")
+				return
+			}
+			// is the reader kept (stored, returned, wrapped) or only handed to read calls?
+			temporary := true
+			if refs := call.Referrers(); refs != nil {
+				for _, r := range *refs {
+					switch x := r.(type) {
+					case *ssa.DebugRef:
+					case ssa.CallInstruction:
+						co := engine.CalleeObj(x)
+						if co == nil || !(strings.HasPrefix(co.Name(), "Read") || strings.HasPrefix(co.Name(), "Peek")) {
+							temporary = false
+						}
+					case *ssa.MakeInterface:
+						if ir := x.Referrers(); ir != nil {
+							for _, u := range *ir {
+								if cc, ok := u.(ssa.CallInstruction); ok {
+									co := engine.CalleeObj(cc)
+									if co == nil || !strings.HasPrefix(co.Name(), "Read") {
+										temporary = false
+									}
+								} else if _, dbg := u.(*ssa.DebugRef); !dbg {
+									temporary = false
+								}
+							}
+						}
+					default:
+						temporary = false
+					}
+				}
+			}
+			if !temporary {
+				c.Hold(key, in.Pos(), 1, nil, "the buffered reader is kept and used for the rest of the stream")
+				return
+			}
+			// the connection itself is used again after the reader was created (other than being closed)
+			var later ssa.Instruction
+			engine.ForEachInstr(f, func(x ssa.Instruction) {
+				if later != nil || x == in {
+					return
+				}
+				cc, ok := x.(ssa.CallInstruction)
+				if !ok || !engine.InstrReaches(in, x) {
+					return
+				}
+				if co := engine.CalleeObj(cc); co != nil && (co.Name() == "Close" || strings.HasPrefix(co.Name(), "Set") || strings.HasSuffix(co.Name(), "Addr")) {
+					return
+				}
+				for _, a := range engine.CallArgs(cc) {
+					av := engine.Unwrap(a)
+					if mi, ok := av.(*ssa.MakeInterface); ok {
+						av = engine.Unwrap(mi.X)
+					}
+					if av == under || engine.SameExpr(av, under) {
+						if rc, isCall := x.(*ssa.Call); isCall && rc == call {
+							continue
+						}
+						later = x
+					}
+				}
+			})
+			if later != nil {
+				c.Violate(key, in.Pos(), []string{"connection used again at " + p.Pos(posOf(later))},
+					"a buffered reader is created over %s only for one read, and the connection is used directly afterwards: what the reader buffered beyond the message is lost", engine.Describe(under))
+			} else {
+				c.Hold(key, in.Pos(), 1, nil, "the connection is not used after the buffered read")
+			}
+		})
+	}
+	c.Check(n >= 1, "bufio:seen", token.NoPos, n, nil, "positive control: %d bufio.NewReader sites examined", n)
 	c.Floor(n, 1)
 }
